@@ -2438,6 +2438,10 @@ impl<'a, E: quiver_core::effects::Effect> Compiler<'a, E> {
             // type. The first chain has no threaded value and loads the block parameter instead.
             let chain_input = threaded.map(|(t, p)| (self.without_nil(t), p));
 
+            // A narrowing recorded by an earlier chain only describes the values this branch
+            // takes if nothing after the match can still send the sequence to nil.
+            let narrowed_before_chain = narrowing.as_deref().is_some_and(|n| n.is_active());
+
             let (chain_type, chain_prov) = self.compile_chain_with_input(
                 chain.clone(),
                 on_no_match,
@@ -2447,6 +2451,13 @@ impl<'a, E: quiver_core::effects::Effect> Compiler<'a, E> {
                 true, // implicit_continuation: only consulted for the first chain (no threaded input)
                 None,
             )?;
+
+            if narrowed_before_chain
+                && self.contains_nil(chain_type)
+                && let Some(n) = narrowing.as_deref_mut()
+            {
+                n.disable();
+            }
 
             // If a prior chain could short-circuit to nil, the sequence's result includes nil.
             let should_propagate_nil =
@@ -2583,7 +2594,18 @@ impl<'a, E: quiver_core::effects::Effect> Compiler<'a, E> {
 
         let terms: Vec<_> = chain.terms.into_iter().collect();
         let last_index = terms.len().saturating_sub(1);
+        let narrowed_before_chain = narrowing.as_deref().is_some_and(|n| n.is_active());
         for (i, term) in terms.iter().enumerate() {
+            // A term that follows a match in the same chain replaces the match's verdict (nil
+            // flows on through a chain), so whether the branch is taken no longer says whether
+            // the pattern matched: the recorded narrowing cannot be complemented.
+            if !narrowed_before_chain
+                && !matches!(term, ast::Term::Match(_))
+                && let Some(n) = narrowing.as_deref_mut()
+                && n.is_active()
+            {
+                n.disable();
+            }
             let term_expected = self.expected_for_term(&terms, i, last_index, expected);
             let (term_type, term_prov) = self.compile_term(
                 term.clone(),
